@@ -450,7 +450,7 @@ CLAIM_TEXT = {
     "C02": ("get_lpm / get_lpm_prefix / get_lpm_mut / set get_lpm equal the longest covering entry of the abstract map for every well-formed arena of at most N slots (value-less nodes anywhere) and every query", "§4 C02"),
     "C03": ("whole traversals from the real constructors (iter, iter_mut, into_iter, keys/values, clone) at N=3 with a probe prefix, plus Init/Step obligations on injected stacks: each entry once, ascending, fused", "§4 C03"),
     "C04": ("len()/is_empty() delta of every mutator equals the abstract delta from every well-formed, count-consistent state of at most N slots; includes Entry handles, clone, collect and mutable views", "§4 C04"),
-    "C05": ("union / union_mut: Init obligation on the real constructors for every pair of view locations (stack invariant, nothing lost; 2+2 and 3+3 slots), contract of the pair classifier next_indices (3+3, 4+4), and the first item of a 1+1 traversal; the one-sided descent helpers and the Step of Union::next exceed CBMC's memory and are NOT decided (DESIGN.md §6)", "§4 C05"),
+    "C05": ("union / union_mut: Init obligation on the real constructors for every pair of view locations (stack invariant, nothing lost; 2+2 and 3+3 slots), contract of the pair classifier next_indices (3+3, 4+4), and the first item of a 1+1 traversal; the one-sided descent helpers and the Step of Union::next exceed CBMC's memory and are NOT decided (DESIGN.md §12)", "§4 C05"),
     "C06": ("intersection / intersection_mut: Init on the real constructors for every pair of view locations (3+3 slots), helper contracts (no common entry pruned; 4+4), and the Step of Intersection::next from every stack satisfying the stack invariant (2+2 slots; IntersectionMut in the thorough tier)", "§4 C06"),
     "C07": ("difference / covering_difference and their _mut twins: Init on the real constructors for every pair of view locations (3+3 slots), helper contracts (4+4), Step of CoveringDifference::next for calls that finish within two loop bodies (quick, 2+2); unbounded Step of all four iterators in the thorough tier", "§4 C07, §9"),
     "C08": ("LPM annotations: the constructors of union / difference / difference_mut seed exactly the true longest matches for every pair of view locations (Init, S4), the first union item carries the true match; inheritance across next() steps is decided for difference (thorough) and not for union", "§4 C08"),
@@ -459,12 +459,12 @@ CLAIM_TEXT = {
     "C11": ("view_at / view_mut_at, left / right / split / has_left / has_right from every view location (node or virtual) against the region oracle; existence iff non-empty on canonical tries", "§4 C11"),
     "C12": ("find / find_exact / find_lpm / view_at from every view location and every query (inside, covering, disjoint), read-only and mutable (Err hands back the view)", "§4 C12"),
     "C13": ("mutable lookups, iterators, view accessors and *_mut set operations hand out the value slot of the node the read-only twin yields; a write changes exactly that entry (arena read-back)", "§4 C13"),
-    "C14": ("address and region disjointness: results of find/left/right/split lie inside the consumed view, the two sides are disjoint, one traversal never hands out a slot twice, and a symbolic interleaving of two IterMut over a split equals the sequential result; the compile-time clauses (borrow checking, Send/Sync bounds) are not decidable by symbolic execution (DESIGN.md §6)", "§4 C14"),
+    "C14": ("address and region disjointness: results of find/left/right/split lie inside the consumed view, the two sides are disjoint, one traversal never hands out a slot twice, and a symbolic interleaving of two IterMut over a split equals the sequential result; the compile-time clauses (borrow checking, Send/Sync bounds) are not decidable by symbolic execution (DESIGN.md §12)", "§4 C14"),
     "C15": ("every mutator preserves WF (and CANON where the property demands it) from every WF arena of at most N slots; remove_keep_tree and value-only operations leave child pointers and prefixes unchanged; canonical tries with equal key sets have equal node sets (lemma)", "§4 C15"),
     "C16": ("every mutator preserves the slot partition (reachable xor free, free list duplicate-free) and grows the arena only when the free list is empty, from every partitioned arena of at most N slots", "§4 C16"),
     "C17": ("the Prefix trait methods of all 14 shipped types against the reference algebra for every representation, every length 0..=width and every bit index 0..=255 (finite domain decided completely, no loop in the code under test)", "§4 C17"),
     "C18": ("stored representation component of the abstract map: observers, iterators, views and set-operation items return stored bytes, inserting calls overwrite them with the argument's bytes, other calls leave them", "§4 C18"),
-    "C19": ("== / != of two maps and of two sets against the sequence oracle (2+2 slots), clone() equality and independence, rebuild from the own entries in another order; the serde wire formats are not decidable here (DESIGN.md §6)", "§4 C19"),
+    "C19": ("== / != of two maps and of two sets against the sequence oracle (2+2 slots), clone() equality and independence, rebuild from the own entries in another order; the serde wire formats are not decidable here (DESIGN.md §12)", "§4 C19"),
     "C20": ("Kani's panic / unwrap / unreachable / index / overflow / unwinding checks over the harnesses of all other properties (every public entry point from every invariant state inside the bound), handle-call sequences, and callback-time observations modelling a panicking user callback", "§4 C20"),
 }
 NOT_YET = "harnesses for this property are not built yet in this revision"
